@@ -267,7 +267,7 @@ def one_case(rec, seedt):
         ops = []
         for _ in range(int(rng.integers(3, 11))):
             op = str(rng.choice(["read", "read", "copy", "deepcopy", "pickle", "dataframe",
-                                 "measure", "len-repr"]))
+                                 "measure", "len-repr", "plot"]))
             ops.append(op)
             try:
                 if op == "read":
@@ -285,6 +285,17 @@ def one_case(rec, seedt):
                     obj.to_dataframe()
                 elif op == "measure":
                     obj.get_measurement(float(obj.f[0]), "Gxx")
+                elif op == "plot":
+                    import matplotlib
+                    matplotlib.use("Agg")
+                    import matplotlib.pyplot as plt
+                    kinds = ["coh", "csd", "cf", "bode"] if obj.iscsd else ["psd", "asd"]
+                    try:
+                        obj.plot(str(rng.choice(kinds)), errors=bool(rng.random() < 0.5))
+                    except ValueError:
+                        pass  # "No finite data to plot" for an all-zero quantity is documented
+                    finally:
+                        plt.close("all")
                 elif op == "len-repr":
                     if len(obj) != len(obj.f) or "SpectrumResult" not in repr(obj):
                         rec.violation("len-repr", f"{tag}len()/repr() inconsistent with the result")
